@@ -31,6 +31,10 @@ var c06Shapes = map[string]string{
 
 const c06Prelude = `class Holder { public $p = []; public function items() { return $this->p; } }
 class Kept { public $p = []; public function __construct($q) { $this->p = $q; } }
+class Stat {
+  public static $sp = [];
+  public static function keep($q) { self::$sp = $q; }
+}
 function ident($x) { return $x; }
 `
 
@@ -163,6 +167,15 @@ func c06Script(shape, route string, steps []c06Step) string {
 	case "elemload":
 		fmt.Fprintf(&sb, "$outer = [0, %s];\n$b = $outer[1];\n", lit)
 		a, b = "$outer[1]", "$b"
+	case "staticstore":
+		fmt.Fprintf(&sb, "$a = %s;\nStat::$sp = $a;\n", lit)
+		a, b = "$a", "Stat::$sp"
+	case "selfstore":
+		fmt.Fprintf(&sb, "$a = %s;\nStat::keep($a);\n", lit)
+		a, b = "$a", "Stat::$sp"
+	case "staticload":
+		fmt.Fprintf(&sb, "Stat::$sp = %s;\n$b = Stat::$sp;\n", lit)
+		a, b = "Stat::$sp", "$b"
 	case "arraypush":
 		fmt.Fprintf(&sb, "$a = %s;\n$outer = [];\narray_push($outer, $a);\n", lit)
 		a, b = "$a", "$outer[0]"
@@ -366,7 +379,7 @@ func C06(c *Ctx) *kf.Report {
 		perRoute[strings.SplitN(k, "/", 2)[0]]++
 	}
 	rep.Coverage["effective_mutation_kinds_per_route"] = perRoute
-	for _, r := range []string{"assign", "param", "return", "getter", "propstore", "propload", "elemstore", "elemload", "clone", "variadic", "spread", "arraypush", "ctorparam", "methodparam", "closureuse", "ref", "refparam", "handle"} {
+	for _, r := range []string{"assign", "param", "return", "getter", "propstore", "propload", "elemstore", "elemload", "clone", "variadic", "spread", "arraypush", "ctorparam", "methodparam", "closureuse", "staticstore", "staticload", "selfstore", "ref", "refparam", "handle"} {
 		if perRoute[r] == 0 {
 			rep.Infraf("route %s: no effective mutation observed (vacuous)", r)
 		}
